@@ -33,7 +33,9 @@ C02 — executable model of the projection-data layout ("one coherent array").
   (ProjData.cxx:165-188); `padOdd` the `make_num_tangential_poss_odd` branch of `get_viewgram`/`get_sinogram`
   (ProjDataFromStream.cxx:243, 567; ProjDataInMemory.cxx:127, 242); `addrsSegOversized` what
   `set_segment` does with a segment container that has more axial positions than the segment (no size check in the
-  pinned source: ProjDataFromStream.cxx:777-838, ProjDataInMemory.cxx:287-309).
+  pinned source: ProjDataFromStream.cxx:777-838, ProjDataInMemory.cxx:287-309); `setterAccepts` the checks every
+  container setter (`set_viewgram`, `set_sinogram`, `set_segment` x2, `set_related_viewgrams`) makes on the index ranges
+  of the container it is given (`CRange`) before it writes.
 
 Not modelled: the byte encoding of a value (numeric type, byte order: the harness decodes bytes itself),
 `fstream` buffering (only *where* `flush()` is called: `flushes`), Interfile header text, `find_scale_factor`
@@ -408,6 +410,55 @@ def addrsSegOversized (l : Layout) (checked : Bool) (seg tof : Int) (extra : Nat
   let o ← offsetOf l ⟨seg, l.minView, l.minAx seg, l.minTang, tof⟩
   if checked then .error .axRange
   else pure (block o l.elemSize ((l.A seg + extra) * (l.V * l.T)))
+
+/-! ### acceptance checks of the container setters (containers whose own index ranges differ from the data's) -/
+
+/-- the index ranges of a container handed to a setter, as its own `ProjDataInfo` describes them: axial range of the
+    container's segment, number of views (`min_view_num` is 0 for every `ProjDataInfo`), tangential range -/
+structure CRange where
+  minAx : Int
+  maxAx : Int
+  numViews : Int
+  minTang : Int
+  maxTang : Int
+  deriving DecidableEq, Repr
+
+inductive Setter where
+  | viewgram | sinogram | segBySino | segByView | related
+  deriving DecidableEq, Repr
+
+def CRange.numAx (c : CRange) : Int := c.maxAx - c.minAx + 1
+def CRange.numTang (c : CRange) : Int := c.maxTang - c.minTang + 1
+
+/-- `ProjDataInfo::operator==` → `blindly_equals` (ProjDataInfo.cxx:716-731) between the data's `ProjDataInfo` and a clone of
+    it whose ranges were edited for segment `seg` (segment, TOF, scanner, bed position are those of the clone's origin):
+    min/max view, min/max tangential position, min/max axial position per segment -/
+def infoEquals (l : Layout) (seg : Int) (c : CRange) : Bool :=
+  c.numViews == l.numViews && c.minTang == l.minTang && c.maxTang == l.maxTang
+    && c.minAx == l.minAx seg && c.maxAx == l.maxAx seg
+
+/-- the checks each container setter performs before it writes (everything else it does is `addrs…` above):
+    * `set_viewgram` (ProjDataFromStream.cxx:333-355): number of tangential positions, number of axial positions of the
+      viewgram's segment, then `ProjDataInfo !=`; `ProjDataInMemory::set_viewgram` (ProjDataInMemory.cxx:150): `ProjDataInfo !=`;
+    * `set_sinogram` (ProjDataFromStream.cxx:601, ProjDataInMemory.cxx:253): `ProjDataInfo !=`;
+    * `ProjData::set_related_viewgrams` (ProjData.cxx:295): `set_viewgram` of each member, stops at the first refusal
+      (all members share one `ProjDataInfo`, so the first one decides);
+    * `set_segment`, both overloads, `ProjDataFromStream` and `ProjDataInMemory` (ProjDataFromStream.cxx:778-803, 864-889,
+      ProjDataInMemory.cxx:295-317): NUMBER of tangential positions, NUMBER of views, segment number in range, min AND max
+      axial position.  The minimum tangential position is not compared: `tangChecked` (probed by the harness) is false
+      in the pinned source. -/
+def setterAccepts (l : Layout) (tangChecked : Bool) (s : Setter) (seg : Int) (c : CRange) : Bool :=
+  match s with
+  | .viewgram | .related =>
+    c.numTang == l.numTang && c.numAx == l.numAx seg && infoEquals l seg c
+  | .sinogram => infoEquals l seg c
+  | .segBySino | .segByView =>
+    c.numTang == l.numTang && c.numViews == l.numViews && decide (l.minSeg ≤ seg ∧ seg ≤ l.maxSeg)
+      && c.minAx == l.minAx seg && c.maxAx == l.maxAx seg && (!tangChecked || c.minTang == l.minTang)
+
+/-- the data's own ranges for segment `seg` -/
+def Layout.crange (l : Layout) (seg : Int) : CRange :=
+  { minAx := l.minAx seg, maxAx := l.maxAx seg, numViews := l.numViews, minTang := l.minTang, maxTang := l.maxTang }
 
 /-! ### the two sides of the refinement -/
 
